@@ -41,6 +41,8 @@ def gen_cases(tier, seed):
                 c['R0'] = []
             c['full'] = (j // 3) % 2 == 0
             c['scheme'] = SCHEMES[(j + k) % len(SCHEMES)]
+            if c['scheme'] in gen.CONTAINER_LIKE and c.get('ic_container') == 'tuple':
+                c['ic_container'] = 'list'      # a tuple of nodes can itself be a node label there: 'a single node' and 'an iterable of nodes' would both fit
             c['kind'] = 'ode'
             c['tcount'] = 7
             out.append(c)
